@@ -4,21 +4,23 @@ import gens, blk, compcases as cc
 from capi import Lib
 from vlib import Oracle, build_lib, hx, md5
 
-THEOREMS = ["C01_factorisation_decodes", "C01_fast_generic_roundtrip", "C01_fast_extState_roundtrip", "C01_fastReset_history", "C01_initStream_ctx_ok", "C01_compress_then_decompress_safe", "C01_hc_mid_history", "C01_hc_mid_fresh_state", "C01_hc_mid_parser"]
-CORRESPONDENCE = ["Model.HcMidApi (LZ4MID_compress + one-shot HC entry points at levels 1-2, LZ4_compress_HC_destSize) == the real functions over call histories on one LZ4_streamHC_t (return value, consumed, bytes, both hash tables, end index, dirty flag after every call)",
+THEOREMS = ["C01_factorisation_decodes", "C01_fast_generic_roundtrip", "C01_fast_extState_roundtrip", "C01_fastReset_history", "C01_initStream_ctx_ok", "C01_compress_then_decompress_safe", "C01_hc_mid_history", "C01_hc_mid_fresh_state", "C01_hc_mid_parser",
+            "C01_hc_chain_history", "C01_hc_chain_fresh_state", "C01_hc_chain_parser", "C01_hc_chain_search"]
+CORRESPONDENCE = [cc.CHAIN_CORR, cc.CHAIN_SEARCH_CORR,
+                  "Model.HcMidApi (LZ4MID_compress + one-shot HC entry points at levels 1-2, LZ4_compress_HC_destSize) == the real functions over call histories on one LZ4_streamHC_t (return value, consumed, bytes, both hash tables, end index, dirty flag after every call)",
                   "Model.FastApi.compress_fast_extState == LZ4_compress_default/_fast/_fast_extState (return value, bytes, context fields, hash table)",
                   "Model.FastApi.compress_fast_extState_fastReset == LZ4_compress_fast_extState_fastReset over call histories on one context (return value, bytes, context fields, hash table after every call)"]
-ORACLES = ["block", "mid"]
+ORACLES = ["block", "mid", "chain"]
 RULE = ("inputs from seeded structured generators (random, runs, periodic, text, barely compressible, long-match, self-dictionary, mixed) "
         "with boundary sizes (0..20, 64KB+-12, 65547, 4KB+-1) and exhaustive small-alphabet strings in the thorough tier; x entry point "
         "{default, fast, fast_extState(junk state), HC, HC_extStateHC(junk state), HC fastReset (+favorDecSpeed)} x acceleration/level x capacity {bound, bound-1, n, small}; "
         "non-trivial = the compressed block contains at least one match sequence; distinct = distinct (input, entry point, parameter, capacity)")
 TRUSTED = ["hand-written model Model/Fast.v + Model/FastApi.v of LZ4_compress_generic_validated and the one-shot entry points, tied by exact output/context comparison",
-           "HC compressors are not modelled in Coq in this round: for them the check is the direct oracle only (independent decoder extracted from the Coq block specification)"]
+           "HC: LZ4MID (levels 1-2) and the hash-chain parser (levels 3-9) are modelled (Model/HcMid*.v, Model/HcChain*.v, tied by exact output/table comparison); the optimal parser (levels 10-12), HC streaming and dictCtx are checked by the direct oracle only (independent decoder extracted from the Coq block specification)"]
 ASSUMPTIONS = ["64-bit little-endian target (byPtr table mode and big-endian hashing not modelled)"]
 
 def build(tier):
-    return {"lib": build_lib("default"), "midstate": cc.midstate_lib(), "case_timeout": 1800 if tier == "thorough" else 600}
+    return {"lib": build_lib("default"), "midstate": cc.midstate_lib(), "chainstate": cc.chainstate_lib(), "case_timeout": 1800 if tier == "thorough" else 600}
 
 def gen_cases(tier, seed):
     rng = random.Random(seed)
@@ -26,6 +28,7 @@ def gen_cases(tier, seed):
     cases = [{"bseed": rng.randrange(1 << 48), "count": 24, "mode": "mix", "maxn": 70000 if i % 6 == 0 else 3000} for i in range(n)]
     nm = {"quick": 16, "search": 40, "thorough": 120}[tier]
     cases += [{"bseed": rng.randrange(1 << 48), "count": 10 if i % 8 else 2, "mode": "hcmid", "maxn": 9000 if i % 8 else 70000} for i in range(nm)]
+    cases += cc.chain_gen_cases(rng, tier)
     if tier == "thorough":
         for a in range(16):
             cases.append({"bseed": a, "mode": "exh", "alpha": "ab", "len": 14, "shard": a, "nshards": 16, "count": 0})
@@ -38,7 +41,7 @@ def worker_init(ctx):
     from capi import Lib
     st = blk.worker_init(ctx)
     st["midlib"] = Lib(ctx["midstate"]); st["midraw"] = ctypes.CDLL(ctx["midstate"]); st["mid"] = Oracle(name="mid")
-    return st
+    return cc.chain_worker(st, ctx)
 
 def one(st, src, rng, res, info):
     n = len(src)
@@ -145,11 +148,24 @@ def mid_judge(st):
         return None
     return judge
 
+def chain_judge(st):
+    def judge(kind, src, cap, level, r, consumed, out):
+        if r < 0 or r > max(cap, 0):
+            return "returned %d with capacity %d" % (r, cap)
+        if r > 0:
+            err = blk.decode_checks(st, src[:consumed], out, strict=(kind != "ds"))
+            if err:
+                return "round trip failed: " + err
+        return None
+    return judge
+
 def run_case(st, case):
     rng = random.Random(case["bseed"])
     res = cc.new_res()
     if case["mode"] == "hcmid":
         return cc.run_mid_case(st, case, mid_judge(st))
+    if case["mode"] == "hcchain":
+        return cc.run_chain_case(st, case, chain_judge(st))
     if case["mode"] == "exh":
         alpha = case["alpha"].encode()
         k = 0
